@@ -20,7 +20,6 @@ logging.disable(logging.CRITICAL)
 
 from traits.api import (  # noqa: E402
     Any, ComparisonMode, Dict, HasTraits, Instance, Int, List, Property, Set, Str, Undefined, cached_property)
-from traits.observation.api import trait as _otrait  # noqa: E402
 
 GETTER = {}      # (id(obj), name) -> calls
 DELIVERED = {}   # id(obj) -> {name: calls}
@@ -103,14 +102,6 @@ def f_dynchild(o):
     return c.extra * 2 + 1 if c is not None else -1
 
 
-def f_optdep(o):
-    # depends on a trait the class does not define (observed as optional): -1 until it is added with add_trait
-    try:
-        return o.extra * 2 + 3
-    except AttributeError:
-        return -1
-
-
 # while a pickle is restored: {"name": dependency restored first, "attr": property to read in its static handler}
 RESTORE_READ = {}
 
@@ -161,7 +152,6 @@ PROPS = {
     "sitems": ("s.items", None),
     "raw": ("raw", f_raw),
     "area": (["value", "other"], f_area),
-    "optdep": (_otrait("extra", optional=True), f_optdep),
     "maybe": ("value", f_maybe),
 }
 IDX = {}          # id(obj) -> pool index of the case being run (for the identity-dependent getters)
@@ -320,11 +310,6 @@ def walk(obj, path, idx, matched, view):
 def snapshot_view(root, pname, idx):
     if pname == "raw":
         return {("t", id(root), "raw")}, [-7, f_raw(root)]
-    if pname == "optdep":
-        try:
-            return {("t", id(root), "extra")}, [-7, 1, root.extra]
-        except AttributeError:
-            return {("t", id(root), "extra")}, [-7, 0, 0]
     if pname == "chain":
         # the dependency is itself a property: its value is the view, `value` is what a mutation touches
         return {("t", id(root), "value")}, [-7, f_inner(root)]
@@ -529,10 +514,6 @@ def run_case(case):
                     touched = False
                     o.remove_trait("extra")
                     o.add_trait("extra", Int())
-                elif k == "AddDep":
-                    # the optional dependency is defined on the instance only now
-                    touched = ("t", id(o), "extra") in matched
-                    o.add_trait("extra", Int(op[2]))
                 elif k == "SetRaw":
                     touched = ("t", id(o), "raw") in matched
                     o.raw = RAW_VALUES[op[2]]()
